@@ -85,7 +85,11 @@ def correspond(ctx):
     dist = {'recorded': len(cases), 'potable': len(pcases), 'eeam': sum(1 for c in allc if c['fs']), 'eam': sum(1 for c in allc if not c['fs']),
             'n_elements': {k: sum(1 for c in cases if len(c['elements']) == k) for k in (1, 2, 3, 4)},
             'grids_not_multiple_of_4': sum(1 for c in cases if c['nr'] % 4 or c['nrho'] % 4)}
-    return {'evaluations': len(allc), 'cases': allc, 'nontrivial': core.distinct_count([c for c in cases if len(c['elements']) >= 2]) + core.distinct_count(pcases),
+    # how the numbers are printed (coq/model/NumFormat.v): the cells rendered in this run, edge values and random doubles
+    import fmt_common
+    nfmt, fdis, fdist = fmt_common.check_formats('C05', ctx['rng'], [10], ctx['thorough'])
+    dis = fdis + dis
+    return {'number_format_cells': nfmt, 'number_format': fdist, 'evaluations': nfmt + len(allc), 'cases': allc, 'nontrivial': core.distinct_count([c for c in cases if len(c['elements']) >= 2]) + core.distinct_count(pcases),
             'rule': 'EAM and Finnis-Sinclair models with 1..4 elements (shuffled), random subsets of pairs declared in either order, grids with and without n % 4 = 0, through writeTABEAM / writeTABEAMFinnisSinclair and the TABEAM tabulation classes (recording callables), '
                     'and potable DL_POLY_EAM / DL_POLY_EAM_fs; whole file text compared; non-trivial = two or more elements or a potable model',
             'samples': cases[:2] + pcases[:1], 'distribution': dist, 'disagreements': dis[:20], 'oracle_cases': allc}
